@@ -1964,6 +1964,12 @@ class QuicConnection:
             )
             self._peer_cid_sequence_numbers.add(sequence_number)
 
+        if change_cid and not self._peer_cid_available:
+            # There is no connection ID left to switch to (the one carried by this
+            # frame was already used and retired), keep using the current one.
+            change_cid = False
+            retire.remove(self._peer_cid)
+
         # retire previous CIDs
         for quic_connection_id in retire:
             self._retire_peer_cid(quic_connection_id)
